@@ -5,6 +5,8 @@
 //!   vh replay <module> <cases.ndjson>          spec -> impl
 //!   vh drive  <module> --seed S --n N --out F  impl -> spec (records a trace)
 mod common;
+mod der;
+mod reschain;
 mod rfc1982;
 
 fn main() {
@@ -19,6 +21,8 @@ fn main() {
         ("replay", "rfc1982") => rfc1982::replay(rest),
         ("drive", "rfc1982") => rfc1982::drive(rest),
         ("native", "rfc1982") => rfc1982::native(rest),
+        ("replay", "reschain") => reschain::replay(rest),
+        ("drive", "reschain") => reschain::drive(rest),
         (a, b) => {
             eprintln!("unknown command {a} {b}");
             std::process::exit(2);
